@@ -7,7 +7,7 @@ NAME=$1; PROP=$2; TIER=${3:-quick}
 R=/tmp/evr-$NAME; H=/tmp/evh-$NAME; E=/verif/seeded/$NAME
 git -C /repo worktree remove --force $R >/dev/null 2>&1; rm -rf $R $H
 git -C /repo worktree add -q --detach $R HEAD || exit 2
-( cd $R && git apply $E/patch.diff ) || { echo "patch does not apply"; exit 2; }
+( cd $R && (git apply $E/patch.diff || git apply -3 $E/patch.diff || patch -p1 -F3 -s < $E/patch.diff) ) || { echo "patch does not apply"; exit 2; }
 mkdir -p $H $E/eval
 rsync -a --exclude target /verif/harness/ $H/
 grep -rl "/repo/" $H --include=Cargo.toml --include=*.rs --include=config.toml | xargs sed -i "s|/repo/|$R/|g"
